@@ -35,12 +35,9 @@ Definition w_tr : list ev :=
 
 Definition w_pmax : N -> nat := fun _ => 10%nat.
 
-Definition result_of (s : state) (p : N) : option (N * N) := p_result (pl_of s p).
-
 Lemma w_check :
   match exec w_pmax (init w_ms) w_tr with
   | Some s => bool_decide (result_of s 101 = Some (8, 7)) && bool_decide (result_of s 102 = Some (8, 7))
-              && bool_decide (s_pl s !! 101 = Some (pl_of s 101)) && bool_decide (s_pl s !! 102 = Some (pl_of s 102))
   | None => false
   end = true.
 Proof. vm_compute. reflexivity. Qed.
